@@ -194,16 +194,19 @@ inductive PRes where
   | error (msg : String)
   deriving Inhabited
 
+/-- one step of the alias substitution loop -/
+def substStep (acc : List (Option Name) × St) (x : Option Name) : List (Option Name) × St :=
+  match x with
+  | none => (acc.1 ++ [none], acc.2)
+  | some x =>
+    match acc.2.getSym (some x) with
+    | some (.alias y) => (acc.1 ++ [some y], { ((acc.2.decUse x).incUse y) with modified := true }.note "subst:alias")
+    | _ => (acc.1 ++ [some x], acc.2)
+
 /-- alias substitution on the node's inputs (first loop of `process_node`) -/
 def substInputs (st : St) (n : Node) : Node × St :=
-  let (ins, st) := n.inputs.foldl (fun (acc : List (Option Name) × St) x =>
-      match x with
-      | none => (acc.1 ++ [none], acc.2)
-      | some x =>
-        match acc.2.getSym (some x) with
-        | some (.alias y) => (acc.1 ++ [some y], { ((acc.2.decUse x).incUse y) with modified := true }.note "subst:alias")
-        | _ => (acc.1 ++ [some x], acc.2)) (([] : List (Option Name)), st)
-  (n.setInputs ins, st)
+  let r := n.inputs.foldl substStep ([], st)
+  (n.setInputs r.1, r.2)
 
 def oracleKey (st : St) (n : Node) (version : Nat) : String :=
   n.op ++ "|" ++ n.domain ++ "|" ++ toString version ++ "|" ++
@@ -273,32 +276,41 @@ def gateCascade (ctx : Ctx) (st : St) (n : Node) (version : Nat) : PRes × St :=
       | some .fail => (.keep n, st.note "gate:evalfail")
       | some (.single c) => emitFold ctx st n c
 
+/-- Run a partial evaluator.  An evaluator sees the whole state but can only write what the real
+evaluators can reach: value annotations (`info`), the symbolic map, the tape (fresh names, explicit
+output names) and the log.  Graph inputs/outputs, use counts, registered and popped initializers
+are out of its reach. -/
+def runEvaluator (f : St → Node → EvRes × St) (st : St) (n : Node) : EvRes × St :=
+  let r := f st n
+  (r.1, { st with info := r.2.info, sym := r.2.sym, fresh := r.2.fresh, hist := r.2.hist, dname := r.2.dname })
+
+/-- registry lookup + evaluator call (`for optimizer in op_optimizers: …`) -/
+def evalPartial (n : Node) (version : Nat) (st : St) : EvRes × St :=
+  match lookupEvaluator n version with
+  | some f => runEvaluator f st n
+  | none => (EvRes.none, st)
+
+/-- what `process_node` does with the evaluator's answer -/
+def finishNode (ctx : Ctx) (n : Node) (version : Nat) : EvRes × St → PRes × St
+  | (.error m, st) => (.error m, st)
+  | (.repl r, st) => (.repl n r, st)
+  | (.none, st) => gateCascade ctx st n version
+
 def processNode (ctx : Ctx) (st : St) (n0 : Node) : PRes × St :=
-  let (n, st) := substInputs st n0
-  let st := if n.isOp "Constant" then processConstant ctx st n else st
-  match lookupA ctx.imports n.domain with
-  | none => (.keep n, st.note "gate:noimport")
-  | some version =>
-    let ev := match lookupEvaluator n version with
-      | some f => f st n
-      | none => (EvRes.none, st)
-    match ev with
-    | (.error m, st) => (.error m, st)
-    | (.repl r, st) => (.repl n r, st)
-    | (.none, st) => gateCascade ctx st n version
+  let p := substInputs st n0
+  let st1 := if p.1.isOp "Constant" then processConstant ctx p.2 p.1 else p.2
+  match lookupA ctx.imports p.1.domain with
+  | none => (.keep p.1, st1.note "gate:noimport")
+  | some version => finishNode ctx p.1 version (evalPartial p.1 version st1)
 
 /-! ### replace_node -/
 
 def orElse {α} (a b : Option α) : Option α := match a with | some x => some x | none => b
 
-/-- `replace_node`: returns the (renamed) new nodes to splice in and the initializers to
-register in the current graph. -/
-def applyRepl (ctx : Ctx) (st : St) (n : Node) (r : Repl) : Except String (List Node × List (Name × String) × St) :=
-  if n.outputs.length != r.newOuts.length then .error "replace: number of values and replacements must match" else
-  let pairs := List.zip n.outputs r.newOuts
-  let rmap : List (Name × Name) := pairs.map fun (o, v) => (v, o)
-  -- new value inherits type/shape/const of the old one where the old one has them
-  let st := pairs.foldl (fun st (o, v) =>
+/-- `replace_nodes_and_values`, first loop: the new value inherits type/shape/const of the old one
+where the old one has them, and takes over its identity. -/
+def inheritInfo (st : St) (pairs : List (Name × Name)) : St :=
+  pairs.foldl (fun st (o, v) =>
     let old := st.getInfo o
     let new := st.getInfo v
     let st := st.setInfo o { dtype := orElse old.dtype new.dtype, shape := orElse old.shape new.shape,
@@ -307,18 +319,33 @@ def applyRepl (ctx : Ctx) (st : St) (n : Node) (r : Repl) : Except String (List 
     -- uses recorded under the new value's own identity move to the old name
     let st := { st with uses := insertA (eraseA st.uses v) o (st.usesOf o + st.usesOf v) }
     { st with info := eraseA st.info v }) st
+
+def countNewUses (st : St) (newNodes : List Node) : St :=
+  newNodes.foldl (fun st m => st.incUses m.inputs) st
+
+/-- `_clear_unused_initializers(node_inputs)` -/
+def clearUnused (st : St) (ins : List Name) : St :=
+  ins.foldl (fun st x =>
+    if st.isInit x && st.usesOf x == 0 && !st.gouts.contains x && !st.isGraphInput x
+    then { st with removed := x :: st.removed, initDisplay := st.initDisplay.erase (st.display x) }.note "clear:initializer"
+    else st) st
+
+/-- `replace_node`: returns the (renamed) new nodes to splice in and the initializers to
+register in the current graph. -/
+def applyRepl (ctx : Ctx) (st : St) (n : Node) (r : Repl) : Except String (List Node × List (Name × String) × St) :=
+  if n.outputs.length != r.newOuts.length then .error "replace: number of values and replacements must match" else
+  let pairs := List.zip n.outputs r.newOuts
+  let rmap : List (Name × Name) := pairs.map fun (o, v) => (v, o)
+  let st := inheritInfo st pairs
   let newNodes := r.newNodes.map (renNode maxDepth rmap)
   let inits := r.inits.map fun (x, t) => (renName rmap x, t)
   let st := st.decUses n.inputs
   let st := if r.inlinedIf then
       { st with gouts := st.gouts.filter (fun x => !(r.newOuts.contains x) || n.outputs.contains x) }
-    else newNodes.foldl (fun st m => st.incUses m.inputs) st
+    else countNewUses st newNodes
   let newInitNames : List Name := (inits.map (fun (p : Name × String) => p.1)).filter (fun x => !st.initNames.contains x)
   let st := { st with initNames := st.initNames ++ newInitNames }
-  let st := if ctx.isFunction then st else
-    (n.inputs.filterMap id).foldl (fun st x =>
-      if st.isInit x && st.usesOf x == 0 && !st.gouts.contains x
-      then { st with removed := x :: st.removed, initDisplay := st.initDisplay.erase (st.display x) }.note "clear:initializer" else st) st
+  let st := if ctx.isFunction then st else clearUnused st (n.inputs.filterMap id)
   .ok (newNodes, inits, { st with modified := true })
 
 /-! ### visit_graph -/
